@@ -46,6 +46,11 @@ CLAIMED = {
     text='Every Cayley table the library constructs (S_n, A_n, D_3..D_12, C_2..C_12, (Z/n)^* n<=24, V4, Q8) is exported and the group axioms are evaluated by TLC over ALL element triples; the group is identified by isomorphism invariants (order, element-order profile, commutativity) computed by TLC from the table and from the reference construction (permutations / presentations) in the spec; the left-regular form is checked to be a faithful homomorphism. Irreducible blocks: sum d^2 = |G|, #irreps = #classes (classes computed by TLC), and for groups whose characters are all rational (decided by TLC from the table) the integer characters must be class functions satisfying row orthogonality in Z. p(N) for N<=60 against the pentagonal recurrence, the Young-diagram list against the enumerated partition set, and the Young lattice is model-checked as a state machine (every standard filling with N<=8 / 10 is a state; branching rule and standardness invariants): get_all_young_tableaux must return exactly the states of each shape, distinct, hook-length many.',
     note='NOT covered: entry-wise unitarity/homomorphism of the floating irreducible blocks, irrational character values. S_5/A_5 (order 120/60) only in thorough.',
     technique='TLA+ specs of finite groups, partitions and the Young lattice; TLC exhaustive evaluation over all triples / all lattice states; TLC trace validation of recorded library outputs'),
+ 'C17': dict(
+    cat='model_checking', ref='6/C17',
+    text='The partial trace is specified on matrix units by the mixed-radix index contraction; TLC enumerates every dimension list (length 2..3 entries 2..3 quick; length <=4 entries 2..4 thorough) and every keep subset, checking trace preservation and two-step = one-step on all units, and emits the routing table that numqi.utils.partial_trace is compared with (Gaussian-integer operators, every matrix unit for small dimensions). Dicke states: TLC derives occupation order, orbits (partition of the basis, size = multinomial, closed under qudit swaps) and proves the integer identity (count)^2 n^2 = a_r b_s M(a) M(b) that equates the library closed form sqrt(a_r b_s)/n with the reduction coefficient defined by counting; get_dicke_klist/basis/Dicke/get_dicke_number, both forms of the reduction table and the fast reduction (numpy and torch) vs explicit embedding + partial trace are compared.',
+    note='Tolerance 1e-9 (1e-8 composed). Linearity/sesquilinearity closes the gap from integer inputs to all inputs.',
+    technique='TLA+ specs of partial trace (index contraction) and Dicke states (counting); TLC exhaustive enumeration of configurations; expected tables replayed into the code'),
  'C19': dict(
     cat='model_checking', ref='6/C19',
     text='For each shipped code the encoder gate list is read from the live object and handed to TLC as the program: TLC derives the stabilizer generators with the Clifford tableau, decides Knill-Laflamme for EVERY Pauli error of weight 1..d-1 (one state per error; pull-back rule cross-checked against the textbook commutation/group-membership formulation), and decides that each listed stabilizer string lies in +<S>. The real code words, knill_laflamme_inner_product on make_error_list, the shipped stabilizer circuits, make_error_list / make_asymmetric_error_set (n<=6, d<=4, four Z-weights) and quantum_weight_enumerator are then compared with / validated by TLC against those decisions (full <i|E|j> matrices incl. weight-d errors that violate KL).',
